@@ -199,6 +199,34 @@ pub fn run_seed_for(seed: u64, property: &str, index: usize) -> u64 {
     mix(&[seed, crate::rng::fnv1a(property.as_bytes()), index as u64])
 }
 
+/// last-resort wall-clock watchdog: a run that does not return at all (an endless loop in
+/// patronus that never touches the simulated transport) cannot be caught by a step bound. The
+/// deterministic oracles never depend on this; it only turns "the check hangs forever" into a
+/// reported violation that names the seed of the run.
+pub fn run_limit_s(tier: Tier) -> u64 {
+    std::env::var("VERIF_RUN_LIMIT_S")
+        .ok()
+        .and_then(|s| s.parse().ok())
+        .unwrap_or(match tier {
+            Tier::Quick => 300,
+            Tier::Thorough => 1800,
+        })
+}
+
+fn write_timeout_replay(prop_id: &str, seed: u64, idx: usize, rs: u64, tier: Tier, secs: u64) -> String {
+    let dir = format!("{}/replays", verif_dir());
+    let _ = std::fs::create_dir_all(&dir);
+    let path = format!("{dir}/{prop_id}-{seed}-{idx}-timeout.json");
+    let file = json!({
+        "format": 1, "property": prop_id, "verif_seed": seed, "run": idx, "run_seed": format!("{rs:#x}"),
+        "violation": {"property": prop_id, "oracle": format!("{prop_id}/termination"), "class": "WallClockTimeout",
+                      "site": "run", "detail": format!("run did not return within {secs} s of wall-clock time")},
+        "scenario": {"kind": "run-seed", "run_seed": format!("{rs:#x}"), "tier": tier.name()},
+    });
+    let _ = std::fs::write(&path, serde_json::to_string_pretty(&file).unwrap());
+    path
+}
+
 pub struct BatchResult {
     pub acc: Acc,
     pub runs_done: usize,
@@ -220,9 +248,37 @@ pub fn run_batch(prop: &dyn Property, tier: Tier, seed: u64, n_runs: usize, know
             Tier::Thorough => 7200.0,
         });
     let nw = workers().min(n_runs.max(1));
+    // per worker: (run index + 1, start time in ms since `start`), 0 = idle
+    let slots: Vec<(AtomicUsize, AtomicUsize)> = (0..nw).map(|_| (AtomicUsize::new(0), AtomicUsize::new(0))).collect();
+    let done = std::sync::atomic::AtomicBool::new(false);
+    let finished = AtomicUsize::new(0);
+    let slot_counter = AtomicUsize::new(0);
+    let limit = run_limit_s(tier);
+    let prop_id = prop.id();
     std::thread::scope(|sc| {
+        sc.spawn(|| {
+            while !done.load(Ordering::SeqCst) {
+                std::thread::sleep(std::time::Duration::from_millis(200));
+                let now = start.elapsed().as_millis() as usize;
+                for (idx1, t0) in &slots {
+                    let i = idx1.load(Ordering::SeqCst);
+                    if i > 0 && now.saturating_sub(t0.load(Ordering::SeqCst)) > (limit as usize) * 1000 {
+                        let i = i - 1;
+                        let rs = run_seed_for(seed, prop_id, i);
+                        let path = write_timeout_replay(prop_id, seed, i, rs, tier, limit);
+                        let msg = format!(
+                            "run {i} (run seed {rs:#x}) did not return within {limit} s: possible non-termination\nVIOLATION property={prop_id} replay={path}\n"
+                        );
+                        // stdout may be redirected: write to the saved descriptor if there is one
+                        crate::harness::emergency_say(&msg);
+                        std::process::exit(1);
+                    }
+                }
+            }
+        });
         for _ in 0..nw {
             sc.spawn(|| {
+                let my_slot = slot_counter.fetch_add(1, Ordering::SeqCst);
                 KNOWN.with(|k| *k.borrow_mut() = known.to_vec());
                 loop {
                     let i = next.fetch_add(1, Ordering::SeqCst);
@@ -234,12 +290,18 @@ pub fn run_batch(prop: &dyn Property, tier: Tier, seed: u64, n_runs: usize, know
                     }
                     let rs = run_seed_for(seed, prop.id(), i);
                     let mut acc = Acc::default();
+                    slots[my_slot].1.store(start.elapsed().as_millis() as usize, Ordering::SeqCst);
+                    slots[my_slot].0.store(i + 1, Ordering::SeqCst);
                     let v = prop.run(rs, tier, &mut acc);
+                    slots[my_slot].0.store(0, Ordering::SeqCst);
                     if v.is_some() && std::env::var("VERIF_COLLECT").is_err() {
                         // later runs are not needed: the first violation in index order wins
                         stop_at.fetch_min(i, Ordering::SeqCst);
                     }
                     results.lock().unwrap()[i] = Some((acc, v));
+                }
+                if finished.fetch_add(1, Ordering::SeqCst) + 1 == nw {
+                    done.store(true, Ordering::SeqCst);
                 }
             });
         }
@@ -487,6 +549,35 @@ pub fn replay_file(prop: &dyn Property, path: &str, out: &Stdio) -> i32 {
         }
     };
     let mut acc = Acc::default();
+    if v["scenario"]["kind"].as_str() == Some("run-seed") {
+        let rs = u64::from_str_radix(
+            v["scenario"]["run_seed"].as_str().unwrap_or("0").trim_start_matches("0x"),
+            16,
+        )
+        .unwrap_or(0);
+        let tier = if v["scenario"]["tier"].as_str() == Some("thorough") { Tier::Thorough } else { Tier::Quick };
+        let limit = run_limit_s(tier);
+        let path2 = path.to_string();
+        let pid = prop.id().to_string();
+        std::thread::spawn(move || {
+            std::thread::sleep(std::time::Duration::from_secs(limit));
+            crate::harness::emergency_say(&format!(
+                "run did not return within {limit} s: possible non-termination\nVIOLATION property={pid} replay={path2}\n"
+            ));
+            std::process::exit(1);
+        });
+        return match prop.run(rs, tier, &mut acc) {
+            Some((viol, _)) => {
+                out.say(&format!("{} {} {} — {}", viol.oracle, viol.class, viol.site, viol.detail));
+                out.say(&format!("VIOLATION property={} replay={}", prop.id(), path));
+                1
+            }
+            None => {
+                out.say("replay: run returned without violation");
+                0
+            }
+        };
+    }
     match prop.replay(&v["scenario"], &mut acc) {
         Ok(Some(viol)) => {
             out.say(&format!(
